@@ -337,3 +337,15 @@ Definition run_check_rows_rfc (a : list N) : list N :=
                       vec_eqb got want) (rangeN (N.to_nat (cK p))) in
       [1; if Nat.eqb (length Cl) (N.to_nat (cL p)) && ldpc_ok && enc_ok then 1 else 0]
   end.
+
+(* [K, T, esi, C(L*T)...] -> Enc[K', C, Tuple[K', esi + K' - K]] with the RFC-snapshot parameters and the Spec tuple,
+   on GIVEN intermediate symbols (for block sizes too large to solve with the reference elimination) *)
+Definition run_spec_enc_from_C (a : list N) : list N :=
+  let K := argn a 0 in let T := argn a 1 in let esi := argn a 2 in
+  let Tn := N.to_nat T in
+  match spec_params K with
+  | None => [0; 0]
+  | Some p =>
+      let C := pm_of_list (chunks_lin (S (N.to_nat (cL p))) Tn (skipn 3 a)) in
+      1 :: fold_left (fun acc j => vxor acc (pm_get Tn C j)) (Enc_indices p (Tuple_of p (esi + (cK p - K)))) (repeat 0 Tn)
+  end.
